@@ -98,3 +98,19 @@ fn(U + "valid_server_name", params={"config": "obj hypercorn.config:Config", "re
         + " and (not is_ascii(request.headers[j][1]) or result == (request.headers[j][1].decode() in config.server_names))))", "C01"),
    ],
    props=("C01", "C04"))
+
+
+# C01 "scheme and peer/server addresses exactly": what the servers put into scope["client"] /
+# scope["server"] is (host, port) -- for IPv6 the first two items of the kernel's 4-tuple
+fn(U + "parse_socket_addr", params={"family": "int", "address": "tuple(str;int) | tuple(str;int;int;int)"}, modifies=[], effect="atomic", inline=True,
+   # what the kernel returns: (host, port) for AF_INET, (host, port, flowinfo, scope_id) for AF_INET6
+   requires=[("addr.pre.kernel-shape", "implies(family == socket.AF_INET, len(address) == 2) and implies(family == socket.AF_INET6, len(address) == 4)")],
+   ensures=[("C01.addr.host-port", "implies(family == socket.AF_INET or family == socket.AF_INET6, result is not None and len(result) == 2 and result[0] == address[0] and result[1] == address[1])", "C01"),
+            ("C01.addr.other-family", "implies(family != socket.AF_INET and family != socket.AF_INET6, result is None)", "C01")],
+   model_opts={"native_args": lambda rng: {"family": rng.choice([__import__("socket").AF_INET, __import__("socket").AF_INET6, __import__("socket").AF_UNIX]),
+                                           "address": rng.choice([("10.0.0.1", 80), ("::1", 8080, 0, 0), ("fe80::1", 1, 7, 3), "/tmp/sock"])},
+               "native_oracle": lambda args, result, exc=None: exc is None and (
+                   result == args["address"][:2] if args["family"] in (__import__("socket").AF_INET, __import__("socket").AF_INET6) and isinstance(args["address"], tuple)
+                   else (result is None if args["family"] == __import__("socket").AF_UNIX else True)),
+               "native_oracle_name": "C01.addr.host-port"},
+   props=("C01",))
